@@ -147,6 +147,11 @@ def run(ctx, crate):
             and a.args[1][0] == "idx"
         obs.append(Ob("R15.perfile", w.path, "the per-file call sees only this file's content, the index and the pattern", ok, site=a.where,
                       found=[show(x)[:70] for x in a.args]))
+        edited = S.mutable_borrows_of_result(w.body, a)
+        obs.append(Ob("R15.perfile", w.path, "what is recorded for (file, pattern) is what the per-file call returned: the result is not edited afterwards", not edited,
+                      site=a.where, expected="no `&mut` of the result between the analysis call and the push",
+                      found=("mutable borrow at line(s) %s" % edited) if edited else "unmodified",
+                      example="lines removed from a pattern's result by a step that keeps state from the patterns analysed before it"))
     # R15.siblings: whether a file is analysed does not depend on the other entries of its directory
     for w in dirwalk.walks(crate):
         if not w.ok or len(w.analyze) != 1 or not w.reads:
